@@ -156,7 +156,7 @@ class Funcs:
         calls = self.calls
 
         def fn(*a, **kw):
-            if (self.depth == 0 and impl is not universal_resolve_type and len(a) >= 3 and hasattr(a[2], "parent_type")
+            if (self.depth == 0 and not getattr(impl, "_is_rtype", False) and len(a) >= 3 and hasattr(a[2], "parent_type")
                     and len(calls) < 20000):
                 calls.append((vid, a[2].parent_type.name, a[2].field_definition.name))
             self.depth += 1
@@ -199,6 +199,19 @@ def universal_resolve_type(value, ctx, info):
     return value["__t"] if isinstance(value, dict) else None
 
 
+universal_resolve_type._is_rtype = True
+
+
+def object_returning_resolve_type(schema):
+    """A type resolver may return the ObjectType OBJECT (`TypeResolver -> Union[ObjectType, str]`): the one of the schema it was
+    written for. Used on a schema DERIVED from that one, the object it returns is not the derived schema's."""
+    def resolve_type(value, ctx, info):
+        name = value["__t"] if isinstance(value, dict) else None
+        return schema.types.get(name, name) if name is not None else None
+    resolve_type._is_rtype = True
+    return resolve_type
+
+
 def build_source(rng, size, funcs):
     """(description, sdl, live schema with code-built attributes)."""
     from py_gql import build_schema
@@ -219,14 +232,30 @@ def build_source(rng, size, funcs):
         schema = build_schema(sdl)
     desc["rare_names"] = rare
     decorate(rng, schema, funcs)
-    desc["subclassed"] = subclass_some(random_fork(rng), schema) if rng.random() < 0.12 else []
+    desc["subclassed"] = subclass_some(random_fork(rng), schema) if rng.random() < 0.2 else []
     return desc, sdl, schema
 
 
+class AppScalarType(__import__("py_gql.schema", fromlist=["ScalarType"]).ScalarType):
+    """The documented way to write a custom scalar: subclass ScalarType, override serialize / parse."""
+
+    def serialize(self, value):
+        return "<%s>" % (value,)
+
+    def parse(self, value):
+        return "<%s>" % (value,)
+
+
+class AppEnumType(__import__("py_gql.schema", fromlist=["EnumType"]).EnumType):
+    def get_name(self, value):
+        return super().get_name(value)
+
+
 def subclass_some(rng, schema):
-    """An application may define its own ObjectType / InterfaceType / InputObjectType subclasses: one or two type objects of
-    the source become instances of a (behaviour-free) subclass."""
-    from py_gql.schema import InputObjectType, InterfaceType, ObjectType
+    """An application may define its own subclasses of the type classes: one to three type objects of the source become
+    instances of a subclass — behaviour-free for ObjectType / InterfaceType / InputObjectType / EnumType, overriding
+    serialize / parse for custom scalars."""
+    from py_gql.schema import EnumType, InputObjectType, InterfaceType, ObjectType, ScalarType
 
     class AppObjectType(ObjectType):
         pass
@@ -236,11 +265,15 @@ def subclass_some(rng, schema):
 
     class AppInputObjectType(InputObjectType):
         pass
-    cand = [t for n, t in sorted(schema.types.items()) if not n.startswith("__") and type(t) in (ObjectType, InterfaceType, InputObjectType)]
+    table = {ObjectType: AppObjectType, InterfaceType: AppInterfaceType, InputObjectType: AppInputObjectType,
+             ScalarType: AppScalarType, EnumType: AppEnumType}
+    cand = [t for n, t in sorted(schema.types.items()) if not n.startswith("__") and n not in SCALARS and type(t) in table]
     rng.shuffle(cand)
+    if rng.random() < 0.6:
+        cand.sort(key=lambda t: not isinstance(t, (ScalarType, EnumType)))      # (leaf types first; the sort is stable)
     done = []
-    for t in cand[:rng.randint(1, 2)]:
-        t.__class__ = {ObjectType: AppObjectType, InterfaceType: AppInterfaceType, InputObjectType: AppInputObjectType}[type(t)]
+    for t in cand[:rng.randint(1, 3)]:
+        t.__class__ = table[type(t)]
         done.append(t.name)
     return done
 
@@ -260,7 +293,7 @@ def decorate(rng, schema, funcs):
             continue
         via_registry = isinstance(t, ObjectType) and rng.random() < 0.5
         if isinstance(t, (InterfaceType, UnionType)):
-            t.resolve_type = funcs.make(universal_resolve_type)
+            t.resolve_type = funcs.make(object_returning_resolve_type(schema) if rng.random() < 0.3 else universal_resolve_type)
         if isinstance(t, ObjectType):
             if rng.random() < 0.5:
                 if via_registry:
@@ -449,6 +482,7 @@ class Dumper:
     def __init__(self):
         self.addr = {}
         self.keep = []   # keeps objects alive so that ids are not reused
+        self.classes = {}   # application-defined classes of leaf type objects -> small id
 
     def a(self, obj):
         k = id(obj)
@@ -486,7 +520,10 @@ class Dumper:
     def type_(self, t, objs, todo):
         from py_gql.schema import EnumType, InputObjectType, InterfaceType, ObjectType, ScalarType, UnionType
         o = {"o": "type", "name": t.name, "desc": t.description, "fields": [], "ifaces": [], "members": [],
-             "dres": None, "rtype": None, "values": [], "prot": t.name in SCALARS}
+             "dres": None, "rtype": None, "values": [], "prot": t.name in SCALARS, "cls": None}
+        if isinstance(t, (EnumType, ScalarType)) and type(t) not in (EnumType, ScalarType) and "C14_world" in type(t).__module__:
+            # (the BEHAVIOUR of a leaf type: the class of an instance of a ScalarType / EnumType subclass)
+            o["cls"] = self.classes.setdefault(type(t), len(self.classes) + 1)
         if isinstance(t, ObjectType):
             o["kind"] = "object"
             o["ifaces"] = [self.ref(i, todo) for i in t.interfaces]
@@ -562,6 +599,10 @@ class Dumper:
 # ---------------------------------------------------------------------------
 # canonical renumbering (applied to the Python dump and to the model's answer alike)
 # ---------------------------------------------------------------------------
+
+def dump_differs(dumper, schema, raw):
+    return dumper.dump([schema]) != raw
+
 
 def canon(world):
     """Renumber addresses by deterministic traversal from the schemas (in order); drop unreachable objects."""
@@ -851,7 +892,11 @@ def run_query(schema, query):
         resp = r.response()
         return {"data": resp.get("data"), "errors": sorted(str(e.get("message")) for e in resp.get("errors", []))}
     except Exception as e:  # noqa
+        LAST_EXC[0] = "%s: %s" % (type(e).__name__, e)
         return "exc:" + type(e).__name__
+
+
+LAST_EXC = [""]
 
 
 def introspect(schema):
